@@ -342,23 +342,34 @@ Definition it_dep (c : it_cfg) (k : nat) : nat * option minst := (it_m c, inst_o
 Definition it_ready (c : it_cfg) : bool := it_input c && negb (it_m c =? 0)%nat.
 Definition it_init : it_cfg := {| it_m := 0; it_masks := None; it_mask_n := None; it_input := false |}.
 
-(* -- instance 2: Simulator._evolve, the entries keyed (state, n) written by evolve / probs_svd(superposed),
-      for a simulator without heralds (then use_mask always clears the engine's mask) -- *)
+(* -- instance 2: Simulator._evolve, the entries keyed (state, n) written by evolve / evolve_svd / probs_svd(superposed).
+      A value is computed under the heralds mask iff _can_use_mask (= heralds and PNR detection, decided by
+      init_use_mask at the start of probs_svd / evolve_svd); the key does not tell.
+      [fixed] = init_use_mask drops the cache when the usability of the mask flips (/repo commit 8766d55d, the code as
+      it is now); false = the code before it -- *)
 Record sim_cfg := { sim_circ : nat;                     (* circuit id, 0 = none *)
-                    sim_heralds : nat }.                (* heralds id, 0 = none *)
-Inductive sim_op := SimCirc (c : nat) | SimHeralds (h : nat) | SimClearHeralds | SimSelection.
+                    sim_heralds : nat;                  (* heralds id, 0 = none *)
+                    sim_mask : bool }.                  (* _can_use_mask *)
+Inductive sim_op := SimCirc (c : nat) | SimHeralds (h : nat) | SimClearHeralds | SimSelection
+                  | SimUseMask (b : bool).              (* init_use_mask: b = heralds and is_pnr *)
 Definition sim_cstep (c : sim_cfg) (o : sim_op) : sim_cfg :=
   match o with
-  | SimCirc k => {| sim_circ := k; sim_heralds := sim_heralds c |}
-  | SimHeralds h => {| sim_circ := sim_circ c; sim_heralds := h |}
-  | SimClearHeralds => {| sim_circ := sim_circ c; sim_heralds := 0 |}
+  | SimCirc k => {| sim_circ := k; sim_heralds := sim_heralds c; sim_mask := sim_mask c |}
+  | SimHeralds h => {| sim_circ := sim_circ c; sim_heralds := h; sim_mask := sim_mask c |}
+  | SimClearHeralds => {| sim_circ := sim_circ c; sim_heralds := 0; sim_mask := sim_mask c |}
   | SimSelection => c
+  | SimUseMask b => {| sim_circ := sim_circ c; sim_heralds := sim_heralds c; sim_mask := b |}
   end.
-Definition sim_survives (c : sim_cfg) (o : sim_op) (k : state * nat) (d : nat * nat) : bool :=
-  match o with SimSelection => true | _ => false end.     (* _invalidate_cache *)
-Definition sim_dep (c : sim_cfg) (k : state * nat) : nat * nat := (sim_circ c, sim_heralds c).
+Definition sim_survives (fixed : bool) (c : sim_cfg) (o : sim_op) (k : state * nat) (d : nat * nat * bool) : bool :=
+  match o with
+  | SimSelection => true
+  | SimUseMask b => if fixed then Bool.eqb b (sim_mask c) else true
+  | _ => false                                           (* _invalidate_cache *)
+  end.
+Definition sim_dep (c : sim_cfg) (k : state * nat) : nat * nat * bool := (sim_circ c, sim_heralds c, sim_mask c).
 Definition sim_ready (c : sim_cfg) : bool := negb (sim_circ c =? 0)%nat.
 Definition sn_eqb (a b : state * nat) : bool := state_eqb (fst a) (fst b) && (snd a =? snd b)%nat.
+Definition sim_init : sim_cfg := {| sim_circ := 0; sim_heralds := 0; sim_mask := false |}.
 
 (* the engine-side mask a Simulator leaves behind, and Simulator.probs(BasicState), which evolves the input
    with whatever mask the engine still carries: (heralds id, n) of the last use_mask, None = no mask *)
